@@ -8,7 +8,7 @@ use std::mem::MaybeUninit;
 use std::panic::AssertUnwindSafe;
 use std::rc::Rc;
 
-use tevec::export::ndarray::{Array1, ArrayViewMut1};
+use tevec::export::ndarray::{s, Array1, ArrayViewMut1};
 use tevec::prelude::{
     Cast, CollectTrustedToVec, GetLen, IsNone, Number, TError, TIter, TIterator, TResult, ToTrustIter,
     TryCollectTrustedToVec, UninitRefMut, UninitVec, Vec1, Vec1Collect, Vec1Create, Vec1OptCollect,
@@ -739,6 +739,24 @@ fn main() {
                     c.extend(slot_cells(&unsafe { u.assume_init() }.to_vec()));
                     c
                 });
+                // a NON-CONTIGUOUS ndarray buffer (every step-th cell of a longer array; reversed): slot i of the buffer is
+                // base[off + i*step]; the cells in between must stay untouched (an Err cell is appended if one was written)
+                for step in [2isize, 3, -1, -2] {
+                    if len == 0 { continue; }
+                    em.case("exact", &tg(&format!("nd_step{}", step), "to_trust", "write_trust_iter"), &ds(&format!("nd_step{}", step), "to_trust", "write_trust_iter"), || no_trace.clone(), || {
+                        let k = step.unsigned_abs();
+                        let big_len = (len - 1) * k + 1;
+                        let mut big: Array1<MaybeUninit<i64>> = Array1::from_vec((0..big_len).map(|_| MaybeUninit::new(SENT)).collect());
+                        let it = items.clone().into_iter().to_trust(hint);
+                        let r = guarded(AssertUnwindSafe(|| { let mut o = big.slice_mut(s![..;step]); o.write_trust_iter(it) }));
+                        let all: Vec<i64> = unsafe { big.assume_init() }.to_vec();
+                        let mut c = vec![status_cell(r), Cell::Sep];
+                        let logical: Vec<i64> = (0..len).map(|i| if step > 0 { all[i * k] } else { all[(len - 1 - i) * k] }).collect();
+                        c.extend(slot_cells(&logical));
+                        if all.iter().enumerate().any(|(p, v)| p % k != 0 && *v != SENT) { c.push(Cell::Err) }
+                        c
+                    });
+                }
                 if hint == actual {
                     // String items (the singleton is cloned into every slot)
                     em.case("exact", &tg("rec_string", "vec_into", "write_trust_iter"), &ds("rec_string", "vec_into", "write_trust_iter"), || with_trace.clone(), || {
